@@ -10,5 +10,8 @@ try:
 except Exception as e:
     info['tty_error'] = repr(e)
 info['sighup_ignored'] = (signal.getsignal(signal.SIGHUP) == signal.SIG_IGN)
+um = os.umask(0); os.umask(um)
+info['umask'] = um
+info['argv_hex'] = [os.fsencode(a).hex() for a in sys.argv[1:]]
 sys.stdout.write('<<<' + json.dumps(info) + '>>>\n')
 sys.stdout.flush()
